@@ -71,6 +71,20 @@ def run(res, args):
             force = rng.choice(langs)
         cs = rng.choice([0, 0, 0, 106, 3, 4, 1000, 1015, 999])
         rob.append(f'PARSE {force} {cs} {doc.hex() or "-"}')
+    # small-scope exhaustive stream: every body of at most k octets over the octets that steer the parser
+    # (global tokens, tag forms with/without attributes and content, a letter, NUL, 7F, FF) behind a fixed
+    # SI header with a two-entry string table; the model is the reference (boundaries between productions)
+    import itertools
+    alpha = [0x00, 0x01, 0x02, 0x03, 0x04, 0x05, 0x06, 0x40, 0x43, 0x44, 0x45, 0x80, 0x83, 0x84, 0x85, 0xC3, 0xC4, 0xC5, 0x61, 0x7F, 0xFF]
+    hdrs = [bytes([3, 5, 0x6a, 0]), bytes([3, 5, 0x6a, 4]) + b'ab\x00c']
+    kmax = 3 if res.tier == 'quick' else 5
+    small = []
+    for hd in hdrs:
+        for k in range(0, kmax + 1):
+            for body in itertools.product(alpha, repeat=k):
+                small.append(f"PARSE 0 0 {(hd + bytes(body)).hex()}")
+    rob += small
+    res.coverage['small_scope_exhaustive'] = {'alphabet': len(alpha), 'max_body_octets': kmax, 'documents': len(small)}
     lines = spec_lines + rob
     impl, inc_i = corr.run_lines(h, lines, env=b.env())
     model, inc_m = corr.run_lines(drv, lines)
